@@ -140,6 +140,13 @@ func CheckPoint(r kvdb.Reader, m Model, k []byte) string {
 	return ""
 }
 
+// pfx returns a table prefix the way callers often hold one: a slice with spare capacity behind its length
+func pfx(s string) []byte {
+	b := make([]byte, len(s), len(s)+16)
+	copy(b, s)
+	return b
+}
+
 // ---- stacks
 
 type Stack struct {
@@ -213,7 +220,7 @@ func (b *Bench) Stacks() []Stack {
 	fl := flushable.Wrap(b.lvl[1])
 	fp := flushable.Wrap(b.peb[1])
 	fm := flushable.Wrap(memorydb.New())
-	ft := flushable.Wrap(table.New(b.lvl[2], []byte("q")))
+	ft := flushable.Wrap(table.New(b.lvl[2], pfx("q")))
 	fp3 := flushable.Wrap(b.peb[3])
 	lazyUnder := memorydb.New()
 	lz := flushable.NewLazy(func() (kvdb.Store, error) { return lazyUnder, nil }, func() {})
@@ -221,14 +228,14 @@ func (b *Bench) Stacks() []Stack {
 		{"memory", memorydb.New(), nil},
 		{"leveldb", b.lvl[0], nil},
 		{"pebble", b.peb[0], nil},
-		{"table(ff)/memory", table.New(memorydb.New(), []byte{0xff}), nil},
-		{"table(ffff)/table(x)/pebble", table.New(table.New(b.peb[2], []byte("x")), []byte{0xff, 0xff}), nil},
+		{"table(ff)/memory", table.New(memorydb.New(), pfx(string([]byte{0xff}))), nil},
+		{"table(ffff)/table(x)/pebble", table.New(table.New(b.peb[2], pfx("x")), pfx(string([]byte{0xff, 0xff}))), nil},
 		{"flushable/leveldb", fl, fl.Flush},
-		{"table(y)/flushable/pebble", table.New(fp, []byte("y")), fp.Flush},
+		{"table(y)/flushable/pebble", table.New(fp, pfx("y")), fp.Flush},
 		{"flushable/memory", fm, fm.Flush},
-		{"synced/table(zz)/leveldb", synced.WrapStore(table.New(b.lvl[3], []byte("zz")), &sync.RWMutex{}), nil},
+		{"synced/table(zz)/leveldb", synced.WrapStore(table.New(b.lvl[3], pfx("zz")), &sync.RWMutex{}), nil},
 		{"flushable/table(q)/leveldb", ft, ft.Flush},
-		{"synced/table(a\\xff)/flushable/pebble", synced.WrapStore(table.New(fp3, []byte{'a', 0xff}), &sync.RWMutex{}), fp3.Flush},
+		{"synced/table(a\\xff)/flushable/pebble", synced.WrapStore(table.New(fp3, pfx(string([]byte{'a', 0xff}))), &sync.RWMutex{}), fp3.Flush},
 		{"lazyflushable/memory", lz, lz.Flush},
 	}
 }
